@@ -53,7 +53,7 @@ CHECKS.update({
             'Every feasible path (every order type of the pairwise taus, ties included) of the real vine construction for d<=4 (thorough: + d=5 center/direct, d=6 center/direct; regular d>=5 is not exhaustible), three vine types, all truncations: tree counts, spanning trees, proximity, conditioned/conditioning sets, no repeated pair, star/path shape, maximum-spanning-tree optimality of the first regular tree (z3 query per path), no exception.',
             'select_copula / kendalltau / h-functions are stubs; regular vines with d>=5 and d=7 are covered by concrete witness tables only.'),
     'C17': ('model_checking', 'symbolic execution with labelled stub pair copulas; textbook h-recursion as oracle',
-            'All structures for d<=4: each edge copula = select_copula of F(a|D),F(b|D); attached pseudo-observations = [F(a|D+b), F(b|D+a)], moved strictly inside (0,1); get_likelihood = sum of log pair densities at the h-propagated arguments (truncation 1, d-1 and none) with no uninitialised reads; sample schema, per-column quantile wiring, only the model's own pair copulas are evaluated, 2-column conditional inverse at two different draws.',
+            'All structures for d<=4: each edge copula = select_copula of F(a|D),F(b|D); attached pseudo-observations = [F(a|D+b), F(b|D+a)], moved strictly inside (0,1); get_likelihood = sum of log pair densities at the h-propagated arguments (truncation 1, d-1 and none) with no uninitialised reads; sample schema, per-column quantile wiring, only the pair copulas of the model itself are evaluated, 2-column conditional inverse at two different draws.',
             'Pair-copula numerics are C06-C08; the two-column distributional clause is statistical and not claimed.'),
 })
 
